@@ -7,6 +7,7 @@ import (
 	"net"
 	"runtime"
 	"strings"
+	"sync"
 	"sync/atomic"
 	"time"
 
@@ -234,7 +235,7 @@ func runC05(c *Ctx) {
 	r.Assume("the retry count is the request's global number of policy-driven retries ('once' = retryCount == 0); fail-over after connection loss does not consume a retry")
 	r.Assume("plan = hosts sorted by address, rotated by an unknown but fixed start (read off the first attempt)")
 	r.Assume("PREPARE requests are treated as idempotent (preparing has no side effect)")
-	r.Require("sequences_run", "decision_calls", "send_gate_cases", "same_host_retry_host_lost_cases", "partial_pool_cases")
+	r.Require("sequences_run", "decision_calls", "send_gate_cases", "same_host_retry_host_lost_cases", "partial_pool_cases", "partial_pool_lost_slot_0", "partial_pool_lost_slot_1")
 
 	// (1) decision functions, exhaustive grid (every shard contributes a slice)
 	decisionFunctions(c)
@@ -736,59 +737,96 @@ func partialPool(c *Ctx, idx int, hosts int) {
 		}
 		return fakecass.Rows()
 	})
+	// which slot of the healthy host's pool loses its connection is read off the pool's own hook
+	var smu sync.Mutex
+	var cleared []int
+	bed.OnHook(func(ev *px.HookEvent) {
+		if ev.Point == "connpool.slot.clear" && strings.HasPrefix(ev.Endpoint, bed.Cluster.HostIP(healthy)+":") {
+			smu.Lock()
+			cleared = append(cleared, ev.Idx)
+			smu.Unlock()
+		}
+	})
 	cl, err := bed.ReadyClient(primitive.ProtocolVersion4, "")
 	if err != nil {
 		r.Inconc("partial-pool: handshake: " + err.Error())
 		return
 	}
 	defer cl.Close()
-	var pooled []*fakecass.Conn
-	for _, x := range bed.Cluster.Hosts[healthy-1].Conns() {
-		if !x.IsRegistered() {
-			pooled = append(pooled, x)
-		}
-	}
-	if len(pooled) != 2 {
-		r.Inconc(fmt.Sprintf("partial-pool: expected 2 pooled connections, found %d", len(pooled)))
-		return
-	}
-	// which of the two is slot 0 is unknown from outside: the case index picks the older or the newer connection
-	victim := pooled[(idx/hosts)%2]
-	if (pooled[0].ID > pooled[1].ID) != ((idx/hosts)%2 == 1) {
-		victim = pooled[1-(idx/hosts)%2]
-	}
-	bed.Cluster.Hosts[healthy-1].StopListener() // the lost connection cannot be replaced
-	before := len(bed.Policy.Calls.Snapshot())
-	victim.Kill(false)
-	// the proxy has noticed and failed at least one reconnect of that slot
-	waitFor(func() bool {
-		n := 0
-		for _, pc := range bed.Policy.Calls.Snapshot()[before:] {
-			if pc.Kind == "delay" {
-				n++
+	pooledOpen := func() []*fakecass.Conn {
+		var out []*fakecass.Conn
+		for _, x := range bed.Cluster.Hosts[healthy-1].Conns() {
+			if !x.IsRegistered() && !x.IsClosed() {
+				out = append(out, x)
 			}
 		}
-		return n >= 4
-	}, 5*time.Second)
-	bad := 0
-	var sample ReplyInfo
-	for k := 0; k < 12; k++ {
-		tok := NewTok()
-		f, err := cl.CallF(BuildRequest(primitive.ProtocolVersion4, int16(k+1), KQuery, true, tok, primitive.ConsistencyLevelQuorum), 10*time.Second)
-		r.Eval(1)
-		if err != nil {
-			bad++
-			continue
-		}
-		ri := replyInfo(f)
-		if !(ri.Kind == "Rows" && ri.Tok == tok && ri.Echo.Host == healthy) {
-			bad++
-			sample = ri
-		}
+		return out
 	}
-	r.Obs("partial_pool_cases", 1)
-	r.NonTrivial(fmt.Sprintf("partial-pool/h%d/healthy=%d/victim=%d", hosts, healthy, (idx/hosts)%2))
-	if bad > 0 {
-		r.Violate(mon.Violation{Signature: "C05/healthy-host-skipped/one-of-two-connections-down", Detail: fmt.Sprintf("host %d has one of its two pooled connections down (it cannot be re-established) and one up; every other host answers Overloaded: %d of 12 idempotent requests were not answered by host %d (e.g. %s %q)", healthy, bad, healthy, sample.Kind, sample.ErrMsg), Scenario: scenario})
+	orig := pooledOpen()
+	if len(orig) != 2 {
+		r.Inconc(fmt.Sprintf("partial-pool: expected 2 pooled connections, found %d", len(orig)))
+		return
+	}
+	first := (idx / hosts) % 2
+	// round 1 loses one of the two connections, round 2 (after the pool has healed) the other one: both slots are covered
+	for round, victim := range []*fakecass.Conn{orig[first], orig[1-first]} {
+		smu.Lock()
+		nCleared := len(cleared)
+		smu.Unlock()
+		bed.Cluster.Hosts[healthy-1].StopListener() // the lost connection cannot be replaced
+		before := len(bed.Policy.Calls.Snapshot())
+		victim.Kill(false)
+		// the proxy has noticed (slot cleared) and failed at least one reconnect of that slot
+		ok := waitFor(func() bool {
+			n := 0
+			for _, pc := range bed.Policy.Calls.Snapshot()[before:] {
+				if pc.Kind == "delay" {
+					n++
+				}
+			}
+			smu.Lock()
+			defer smu.Unlock()
+			return n >= 4 && len(cleared) > nCleared
+		}, 10*time.Second)
+		if !ok {
+			r.Inconc("partial-pool: the proxy did not notice the lost connection")
+			return
+		}
+		smu.Lock()
+		slot := cleared[len(cleared)-1]
+		smu.Unlock()
+		bad := 0
+		var sample ReplyInfo
+		for k := 0; k < 12; k++ {
+			tok := NewTok()
+			f, err := cl.CallF(BuildRequest(primitive.ProtocolVersion4, int16(100*round+k+1), KQuery, true, tok, primitive.ConsistencyLevelQuorum), 10*time.Second)
+			r.Eval(1)
+			if err != nil {
+				bad++
+				continue
+			}
+			ri := replyInfo(f)
+			if !(ri.Kind == "Rows" && ri.Tok == tok && ri.Echo.Host == healthy) {
+				bad++
+				sample = ri
+			}
+		}
+		r.Obs("partial_pool_cases", 1)
+		r.Obs(fmt.Sprintf("partial_pool_lost_slot_%d", slot), 1)
+		r.NonTrivial(fmt.Sprintf("partial-pool/h%d/healthy=%d/lost-slot=%d/round=%d", hosts, healthy, slot, round))
+		if bad > 0 {
+			r.Violate(mon.Violation{Signature: "C05/healthy-host-skipped/one-of-two-connections-down", Detail: fmt.Sprintf("host %d has the connection in slot %d of its two-connection pool down (it cannot be re-established) and the other one up; every other host answers Overloaded: %d of 12 idempotent requests were not answered by host %d (e.g. %s %q)", healthy, slot, bad, healthy, sample.Kind, sample.ErrMsg), Scenario: scenario})
+			return
+		}
+		if round == 0 {
+			if err := bed.Cluster.Hosts[healthy-1].Start(false); err != nil {
+				r.Inconc("partial-pool: cannot restart the listener: " + err.Error())
+				return
+			}
+			if !waitFor(func() bool { return len(pooledOpen()) == 2 }, 10*time.Second) {
+				r.Inconc("partial-pool: the pool did not heal between the rounds")
+				return
+			}
+		}
 	}
 }
